@@ -76,6 +76,36 @@ func LoadProgram(patterns []string, overlay map[string][]byte) (*Program, error)
 		}
 	}
 	all := ssautil.AllFunctions(prog)
+	// generic functions and methods of generic types are not reachable through
+	// method sets; add them (and their anonymous functions) explicitly
+	var addRec func(fn *ssa.Function)
+	addRec = func(fn *ssa.Function) {
+		if fn == nil || all[fn] {
+			return
+		}
+		all[fn] = true
+		for _, af := range fn.AnonFuncs {
+			addRec(af)
+		}
+	}
+	for _, pk := range pkgs {
+		if pk.Types == nil {
+			continue
+		}
+		sc := pk.Types.Scope()
+		for _, name := range sc.Names() {
+			switch obj := sc.Lookup(name).(type) {
+			case *types.Func:
+				addRec(prog.FuncValue(obj))
+			case *types.TypeName:
+				if named, ok := obj.Type().(*types.Named); ok {
+					for i := 0; i < named.NumMethods(); i++ {
+						addRec(prog.FuncValue(named.Method(i)))
+					}
+				}
+			}
+		}
+	}
 	for fn := range all {
 		if fn.Blocks == nil {
 			continue
